@@ -17,8 +17,8 @@ pub const SPEC: PropSpec = PropSpec {
 	level: "exploration",
 	rule: "case = record schema (nested records, records in arrays/maps/unions, null and union-with-null fields anywhere) + conforming value; the reference encoding in schema order is the oracle (byte-exact). Presentations: every permutation of the root record's fields when it has <= 5 fields (else 40 sampled), nested records permuted independently per presentation, every subset of omissible (null / union-with-null holding null) root fields, as struct / struct variant / map with serialize_entry / map with split key+value; then injections at every position of the root field list: a duplicate of each field (before and after its turn), an unknown field, removal of a required field - all must give Err. distinct by hash(schema shape, value bytes, presentation)",
 	assumptions: &["collections are presented with exact length hints, so the layout of the expected encoding is determined"],
-	cases: (6_000, 600_000),
-	secs: (45, 600),
+	cases: (50_000_000, 4_000_000_000),
+	secs: (30, 600),
 	required: &["permutations_equal", "omissions_equal", "duplicate_rejected", "unknown_rejected", "missing_required_rejected", "nested_out_of_order"],
 	run_case,
 	once: None,
